@@ -28,6 +28,10 @@ type c14Case struct {
 	N       int           `json:"n"`      // number of row operations
 	Expect  model.ErrKind `json:"expect"` // the model's verdict
 	Tick    bool          `json:"tick"`   // a timer tick between the failing statement and the restart
+	// Before / After: valid UPDATEs of the same rows issued right before and right after a failing
+	// UPDATE (each sets one other column): the same rows changed successfully, refused, changed again
+	Before *model.Stmt `json:"before,omitempty"`
+	After  *model.Stmt `json:"after,omitempty"`
 }
 
 func c14BadValue(rt *rapid.T, t *model.Table, kind string) (int, model.Val, bool) {
@@ -307,6 +311,54 @@ func c14Gen(rt *rapid.T) c14Case {
 			s.SQL = gen.RenderStmt(gen.NewStyle(rt), s)
 		}
 		c.Failing = s
+		if c.Kind == "upd-type" && rapid.Bool().Draw(rt, "sandwich") {
+			t := db.Tables[s.Table]
+			bad := s.Set[len(s.Set)-1].Col
+			constant := func(ct model.ColType) model.Val {
+				switch ct {
+				case model.TBool:
+					return model.Bool(true)
+				case model.TVarchar:
+					return model.Str("p")
+				}
+				return model.Int(7)
+			}
+			var others []model.Col
+			for _, col := range t.Cols {
+				if col.Name != bad {
+					others = append(others, col)
+				}
+			}
+			if len(others) > 0 {
+				mkUpd := func(col model.Col) *model.Stmt {
+					u := model.Stmt{Kind: "update", Table: t.Name, Set: []model.Assign{{Col: col.Name, Val: constant(col.Type)}}}
+					u.SQL = gen.RenderStmt(gen.Plain(), u)
+					return &u
+				}
+				before := mkUpd(others[rapid.IntRange(0, len(others)-1).Draw(rt, "beforecol")])
+				after := mkUpd(others[rapid.IntRange(0, len(others)-1).Draw(rt, "aftercol")])
+				probe := db.Clone()
+				k1, e1 := probe.Apply(*before)
+				k2, e2 := probe.Apply(*after)
+				if e1 == nil && e2 == nil && k1 == model.OK && k2 == model.OK {
+					c.Before, c.After = before, after
+					if rapid.Bool().Draw(rt, "validfirst") {
+						// the refused statement also carries a valid assignment, in front of the bad one
+						v := others[rapid.IntRange(0, len(others)-1).Draw(rt, "validcol")]
+						val := constant(v.Type)
+						if v.Type == model.TInt || v.Type == model.TBigInt {
+							val = model.Int(99)
+						}
+						f := c.Failing
+						f.Set = append([]model.Assign{{Col: v.Name, Val: val}}, f.Set...)
+						if kk, ee := db.Clone().Apply(f); ee == nil && kk != model.OK {
+							f.SQL = gen.RenderStmt(gen.NewStyle(rt), f)
+							c.Failing, c.Expect = f, kk
+						}
+					}
+				}
+			}
+		}
 		break
 	}
 	return c
@@ -359,6 +411,14 @@ func c14Run(c c14Case, st *vlib.Stats) string {
 		}
 		if err := eng.Exec("USE " + DBName); err != nil {
 			return "USE of the current database after a refused USE failed: " + err.Error()
+		}
+	}
+	if c.Before != nil {
+		if k, merr := m.Apply(*c.Before); merr != nil || k != model.OK {
+			return fmt.Sprintf("harness: the UPDATE before the failing one is invalid in the model: %v %v", k, merr)
+		}
+		if err := eng.ExecStmt(*c.Before); err != nil {
+			return fmt.Sprintf("the valid UPDATE before the failing one was refused: %v\n  %s", err, c.Before)
 		}
 	}
 	if msg := CompareAll(eng, m, tr); msg != "" {
@@ -426,6 +486,20 @@ func c14Run(c c14Case, st *vlib.Stats) string {
 	}
 	if msg := check(eng, "immediately after"); msg != "" {
 		return msg
+	}
+	if !knownHit && c.After != nil {
+		// the same rows changed again, successfully, on another column: nothing of the refused statement
+		// may come along
+		if k, merr := m.Apply(*c.After); merr != nil || k != model.OK {
+			return fmt.Sprintf("harness: the UPDATE after the failing one is invalid in the model: %v %v", k, merr)
+		}
+		if err := eng.ExecStmt(*c.After); err != nil {
+			return fmt.Sprintf("a valid UPDATE of the same rows after the failed statement was refused: %v\n  %s", err, c.After)
+		}
+		if msg := CompareAll(eng, m, nil); msg != "" {
+			return fmt.Sprintf("after the failed statement (%s) and a valid UPDATE of the same rows (%s): %s", c.Failing, c.After, msg)
+		}
+		st.Label("failing-update-between-two-valid-updates-of-the-same-rows", 1)
 	}
 	if !knownHit && !c.Tick {
 		// in the same session, before any restart
